@@ -18,6 +18,8 @@ def pi8 (s : Stack) : Outgoing × List (Dest × (Bool × Nat)) := (s.outgoing, s
 @[simp] theorem pi8_with_storeLog (s : Stack) (x : List (Bool × SvcKey × Addr)) : pi8 { s with storeLog := x } = pi8 s := rfl
 @[simp] theorem pi8_with_refreshLog (s : Stack) (x : List (Addr × SvcKey × Nat × Nat)) : pi8 { s with refreshLog := x } = pi8 s := rfl
 @[simp] theorem pi8_with_armLog (s : Stack) (x : List (Cb × Nat × Nat)) : pi8 { s with armLog := x } = pi8 s := rfl
+@[simp] theorem pi8_with_subMarks (s : Stack) (x : List (Option Nat × Nat)) : pi8 { s with subMarks := x } = pi8 s := rfl
+@[simp] theorem pi8_markRound (s : Stack) (n : Nat) : pi8 (s.markRound n) = pi8 s := rfl
 @[simp] theorem pi8_with_found_refreshLog (s : Stack) (x : TStore SvcKey) (y : List (Addr × SvcKey × Nat × Nat)) : pi8 { s with found := x, refreshLog := y } = pi8 s := rfl
 @[simp] theorem pi8_with_instances (s : Stack) (x : List Instance) : pi8 { s with instances := x } = pi8 s := rfl
 @[simp] theorem pi8_with_collectors (s : Stack) (x : List Collector) : pi8 { s with collectors := x } = pi8 s := rfl
